@@ -780,6 +780,43 @@ theorem inv5_step (n : Nat) (s s' : Sys) (hreach : Reachable n s) (h : Inv5 n s)
         exact hacksub _ (d3 i hi)
       · rw [hnodes i hij] at hi ⊢
         exact hacksub _ (d3 i hi)
+  | fsmApply i =>
+    rcases fsmApply_cases n s i with heq | ⟨e, _, heq⟩
+    · rw [heq]; exact h
+    · rw [heq]
+      apply inv5_frame n s _ h
+      · intro j; simp only [setNode_nodes]; split
+        · rename_i hj; subst hj; rfl
+        · rfl
+      · intro j; left; simp only [setNode_nodes]; split
+        · rename_i hj; subst hj; rfl
+        · rfl
+      · intro j; simp only [setNode_nodes]; split
+        · rename_i hj; subst hj; exact Nat.le_refl _
+        · exact Nat.le_refl _
+      · rfl
+      · intro x hx; exact hx
+      · intro l t p pt es lc hm; exact hm
+      · intro k'; simp only [setNode_nodes]; split
+        · rename_i hj; subst hj; intro hc; exact ⟨hc, rfl⟩
+        · intro hc; exact ⟨hc, rfl⟩
+  | fsmRestore i =>
+    apply inv5_frame n s _ h
+    · intro j; simp only [apply, setNode_nodes]; split
+      · rename_i hj; subst hj; rfl
+      · rfl
+    · intro j; left; simp only [apply, setNode_nodes]; split
+      · rename_i hj; subst hj; rfl
+      · rfl
+    · intro j; simp only [apply, setNode_nodes]; split
+      · rename_i hj; subst hj; exact Nat.le_refl _
+      · exact Nat.le_refl _
+    · rfl
+    · intro x hx; exact hx
+    · intro l t p pt es lc hm; exact hm
+    · intro k'; simp only [apply, setNode_nodes]; split
+      · rename_i hj; subst hj; intro hc; exact ⟨hc, rfl⟩
+      · intro hc; exact ⟨hc, rfl⟩
   | advanceCommit i k Q =>
     simp only [enabled] at hen
     obtain ⟨hi, hrole, hQ1, hQ2, hQ3, hk1, hk2, hk3, hk4⟩ := hen
